@@ -1706,10 +1706,29 @@ fn gen_abandon(rng: &mut Rng) -> Value {
            "plan":{"kind":"single","faults":[],"schedule":{"policy":"first"}},"oracle":"strict"})
 }
 
-fn gen_same_content(rng: &mut Rng, _tier: &str) -> Value {
+fn gen_same_content(rng: &mut Rng, tier: &str) -> Value {
     // two or three writers of identical content (same or different keys, different entry points and flavours) at once
     let keys = vec!["a".to_string(), "b".to_string()];
     let vals = vec![json!({"seed": rng.next_u64() >> 1, "len": *rng.pick(&[0u64, 5, 4000, 1048577])})];
+    if rng.chance(1, 3) {
+        // one re-writer of content that is already stored against one reader of that address, under EVERY schedule
+        // with at most two context switches: the stored copy must be readable at every instant
+        let fw = flav(rng);
+        let fr = flav(rng);
+        let mut w = json!({"k":"api","op":"write","entry":*rng.pick(&["write","create","opts"]),"val":0,"mode":fw.1,"key":0});
+        if w["entry"] == "opts" {
+            w["opts"] = json!({"size": vals[0]["len"]});
+        }
+        let rd = if rng.chance(3, 4) { json!({"k":"api","op":"read","addr":{"val":0,"algo":"sha256"},"mode":fr.1}) } else { json!({"k":"api","op":"exists","addr":{"val":0,"algo":"sha256"},"mode":fr.1}) };
+        let observe = vec![
+            json!({"k":"api","op":"metadata","key":0,"bin":"sync","mode":"sync"}),
+            json!({"k":"api","op":"read","key":0,"bin":"astd","mode":"async"}),
+            json!({"k":"api","op":"read","addr":{"val":0,"algo":"sha256"},"bin":"sync","mode":"sync"}),
+        ];
+        return json!({"keys":keys,"vals":vals,"prelude":[{"k":"api","op":"write","entry":"write","key":1,"val":0,"bin":"sync","mode":"sync"}],
+               "clients":[{"bin":fw.0,"steps":[w]},{"bin":fr.0,"steps":[rd]}],"post":[],"final_observe":observe,"check_partial_records":true,
+               "plan":{"kind":"enumerate_switches","cap": if tier == "quick" { 18 } else { 60 }},"oracle":"serial"});
+    }
     let mut prelude = Vec::new();
     if rng.chance(1, 2) {
         prelude.push(json!({"k":"api","op":"write","entry":"write","val":0,"bin":"sync","mode":"sync"}));
